@@ -257,9 +257,9 @@ fn main() {
     let thorough = args[2] == "thorough";
     let mut cfgs = vec![];
     for format in [Format::Fasta, Format::Fastq] {
-        let line_choices: &[usize] = if format == Format::Fasta { &[1, 2, 3] } else { &[1] };
+        let line_choices: &[usize] = if format == Format::Fasta { if thorough { &[1, 2, 3, 5] } else { &[1, 2, 3] } } else { &[1] };
         for &lines in line_choices {
-            let lens: &[usize] = if thorough { &[1, 4, 9, 17] } else { &[4, 9] };
+            let lens: &[usize] = if thorough { &[1, 4, 9, 17, 40] } else { &[4, 9] };
             for &line_len in lens {
                 for crlf in [false, true] {
                     let rl = record_bytes(format, lines, line_len, crlf).len();
